@@ -432,6 +432,7 @@ def check(ctx, report):
     list_concatenation(ctx, report)
     equal_values_render_equal(ctx, report)
     absent_optional_fields(ctx, report)
+    key_sizes_defined(ctx, report)
     report.floor('C14.R1', 20, 'iteration obligations')
     report.floor('C14.R4', 15, '_asdict overrides')
 
@@ -605,6 +606,77 @@ def absent_optional_fields(ctx, report, RULE='C14.R14'):
     if len(unguarded_uses(bad, tables, ASN1_ROOTS)) != 1 or unguarded_uses(good, tables, ASN1_ROOTS):
         report.error('%s: the built-in example is not decided as expected (rule broken)' % RULE)
     report.floor(RULE, 1, 'reads of the decoded certificate')
+
+
+KEY_SIZE_SOURCE = {'PublicKeyParamsRsa': ('modulus', 0), 'PublicKeyParamsDsa': ('prime', 0)}
+SIGNED_READS = ('parse_ssh_mpint',)
+UNSIGNED_READS = ('parse_mpint', 'parse_numeric')
+
+
+def key_sizes_defined(ctx, report, RULE='C14.R15'):
+    """Rendering a key renders its size, and the size of an RSA / DSA key is the logarithm of its modulus / prime (external.json:
+    key_size): a parsed key whose modulus or prime is not positive makes every rendering of the object raise ValueError.  Every
+    place where a parse function builds ``PublicKeyParamsRsa`` / ``PublicKeyParamsDsa`` from a number it has read is looked at:
+    the number is refused (InvalidValue) before, when it is zero - and when it is negative, for reads that can give a negative
+    number (SSH mpints are signed, the fixed length integers of DNSKEY are not)."""
+    from ..astutil import inline_locals
+    report.rule(RULE, 'the modulus / prime of a parsed RSA / DSA key is refused unless it is positive (its logarithm is the key size every rendering shows)')
+    n = 0
+    for c in ctx.model.repo_classes():
+        for f in c.methods.values():
+            for call in ast.walk(f.node):
+                if not (isinstance(call, ast.Call) and ast.unparse(call.func).split('.')[-1] in KEY_SIZE_SOURCE):
+                    continue
+                kw, pos = KEY_SIZE_SOURCE[ast.unparse(call.func).split('.')[-1]]
+                e = next((k.value for k in call.keywords if k.arg == kw), call.args[pos] if len(call.args) > pos else None)
+                if e is None:
+                    continue
+                e = inline_locals(e, f.node)
+                if not (isinstance(e, ast.Subscript) and isinstance(e.slice, ast.Constant) and isinstance(e.slice.value, str)):
+                    continue        # not a number read by this function (compose side, conversion of an existing key)
+                key, parser = e.slice.value, ast.unparse(e.value)
+                reads = set()
+                for r in ast.walk(f.node):
+                    if isinstance(r, ast.Call) and isinstance(r.func, ast.Attribute) and ast.unparse(r.func.value) == parser and \
+                            r.func.attr in SIGNED_READS + UNSIGNED_READS and r.args:
+                        a0 = r.args[0]
+                        names = set()
+                        if isinstance(a0, ast.Constant):
+                            names.add(a0.value)
+                        elif isinstance(a0, ast.Name):
+                            for loop in ast.walk(f.node):
+                                if isinstance(loop, ast.For) and isinstance(loop.target, ast.Name) and loop.target.id == a0.id and \
+                                        isinstance(loop.iter, (ast.List, ast.Tuple)):
+                                    names |= {x.value for x in loop.iter.elts if isinstance(x, ast.Constant)}
+                        if key in names:
+                            reads.add(r.func.attr)
+                if not reads:
+                    continue
+                n += 1
+                report.touch(f)
+                signed = bool(reads & set(SIGNED_READS))
+                subject = ast.unparse(e)
+                guarded = False
+                for st in ast.walk(f.node):
+                    if not (isinstance(st, ast.If) and st.lineno < call.lineno and
+                            any(isinstance(x, ast.Raise) and x.exc is not None and 'InvalidValue' in ast.unparse(x.exc) for x in st.body)):
+                        continue
+                    t = inline_locals(st.test, f.node)
+                    if isinstance(t, ast.UnaryOp) and isinstance(t.op, ast.Not) and ast.unparse(t.operand) == subject:
+                        guarded = guarded or not signed
+                    if isinstance(t, ast.Compare) and len(t.ops) == 1 and isinstance(t.comparators[0], ast.Constant):
+                        left, op, k = ast.unparse(t.left), t.ops[0], t.comparators[0].value
+                        if left == subject and ((isinstance(op, ast.LtE) and k == 0) or (isinstance(op, ast.Lt) and k == 1)):
+                            guarded = True
+                        if left == subject and isinstance(op, ast.Eq) and k == 0:
+                            guarded = guarded or not signed
+                if not guarded:
+                    report.add(RULE, '%s@key-size[%s]' % (f.construct, key),
+                               '%s is read with %s and becomes the %s of the key without a test: for %s the size of the key (log2 of it) does not exist, and '
+                               'every rendering of the parsed object - JSON, Markdown, known_hosts - raises ValueError' % (
+                                   subject, sorted(reads)[0], kw, 'zero or a negative number' if signed else 'zero'))
+    report.count(RULE, n)
+    report.floor(RULE, 4, 'RSA / DSA keys built from parsed numbers')
 
 
 def finite_numbers(ctx, report, RULE='C14.R10'):
